@@ -104,6 +104,23 @@ fn utf8_len(b: u8) -> usize {
     }
 }
 
+/// drop leading `#[...]` / `#![...]` attribute groups of a normalised statement text
+fn strip_attrs(s: &str) -> String {
+    let mut t = s.trim_start();
+    loop {
+        if t.starts_with("#[") || t.starts_with("#![") {
+            let mut depth = 0;
+            let mut end = None;
+            for (i, c) in t.char_indices() {
+                if c == '[' { depth += 1; }
+                if c == ']' { depth -= 1; if depth == 0 { end = Some(i); break; } }
+            }
+            match end { Some(e) => t = t[e + 1..].trim_start(), None => break }
+        } else { break; }
+    }
+    t.to_string()
+}
+
 fn norm(s: &str) -> String {
     normalise(s).0
 }
@@ -124,6 +141,7 @@ struct Collector<'a> {
     chains: usize,
     chain_log: Vec<String>,
     extra: BTreeMap<&'static str, usize>,
+    tmps: usize,
 }
 
 impl<'a> Collector<'a> {
@@ -310,7 +328,69 @@ fn pat_to_lets(p: &syn::Pat, src: &str, counter: &mut usize, derefs: &mut Vec<St
     }
 }
 
+fn is_place(e: &syn::Expr) -> bool {
+    match e {
+        syn::Expr::Path(_) | syn::Expr::Lit(_) => true,
+        syn::Expr::Field(f) => is_place(&f.base),
+        syn::Expr::Reference(r) => is_place(&r.expr),
+        syn::Expr::Paren(p) => is_place(&p.expr),
+        syn::Expr::Unary(u) => matches!(u.op, syn::UnOp::Deref(_)) && is_place(&u.expr),
+        _ => false,
+    }
+}
+
 impl<'a> Collector<'a> {
+    /// R13: `recv.m(&<call expr>)` as the whole expression of a statement: the borrowed temporary gets a name
+    /// (`let tmpK__ = <call expr>;` in front of the statement) so that specifications can refer to it. Only done when
+    /// the receiver and the other arguments are place expressions or literals, so evaluation order is unaffected.
+    fn try_hoist(&mut self, st: &syn::Stmt) -> bool {
+        let top: &syn::Expr = match st {
+            syn::Stmt::Expr(e, _) => e,
+            syn::Stmt::Local(l) => match &l.init {
+                Some(i) if i.diverge.is_none() => &i.expr,
+                _ => return false,
+            },
+            _ => return false,
+        };
+        let mc = match top {
+            syn::Expr::MethodCall(mc) => mc,
+            _ => return false,
+        };
+        if !is_place(&mc.receiver) {
+            return false;
+        }
+        let mut target: Option<&syn::Expr> = None;
+        for a in mc.args.iter() {
+            match a {
+                syn::Expr::Reference(r) if r.mutability.is_none() && matches!(&*r.expr, syn::Expr::MethodCall(_) | syn::Expr::Call(_) | syn::Expr::Binary(_)) => {
+                    if target.is_some() {
+                        return false;
+                    }
+                    target = Some(&r.expr);
+                }
+                other if is_place(other) => {}
+                _ => return false,
+            }
+        }
+        let inner = match target {
+            Some(t) => t,
+            None => return false,
+        };
+        // statement-level attributes / patterns are handled by the normal visitor; only the hoisted argument is special
+        let k = self.tmps;
+        self.tmps += 1;
+        let txt = self.render(inner);
+        let (ss, _) = range(st.span());
+        let (is_, ie) = range(inner.span());
+        self.push(ss, ss, format!("let tmp{k}__ = {txt};\n\t\t"), "R13");
+        self.push(is_, ie, format!("tmp{k}__"), "R13");
+        if let syn::Stmt::Local(l) = st {
+            for a in &l.attrs {
+                self.remove_attr(a);
+            }
+        }
+        true
+    }
     fn render(&mut self, e: &syn::Expr) -> String {
         let (s, en) = range(e.span());
         let mut sub = Collector { src: self.src, srcmap: self.srcmap.clone(), chains: self.chains, ..Default::default() };
@@ -503,7 +583,11 @@ impl<'a, 'ast> Visit<'ast> for Collector<'a> {
             let (s, e) = range(st.span());
             self.stmts.push((s, e));
         }
-        syn::visit::visit_block(self, b);
+        for st in &b.stmts {
+            if !self.try_hoist(st) {
+                self.visit_stmt(st);
+            }
+        }
     }
     fn visit_expr_while(&mut self, w: &'ast syn::ExprWhile) {
         self.loops.push(range(w.body.brace_token.span.open()).0);
@@ -965,7 +1049,7 @@ fn extract(src: &Src, b: &Block, report: &mut Vec<serde_json::Value>, vacuity: b
                 col.visit_block(block);
                 // hints
                 let body_norm_cache: Vec<(usize, usize, String)> =
-                    col.stmts.iter().map(|&(s, e)| (s, e, norm(&text[s..e]))).collect();
+                    col.stmts.iter().map(|&(s, e)| (s, e, strip_attrs(&norm(&text[s..e])))).collect();
                 for (place, lines) in &b.hints {
                     let txt = format!("\n\t\t// >>H\n{}\t\t// <<H\n", indent(lines, "\t\t"));
                     if place == "start" {
